@@ -627,7 +627,79 @@ func planC15(prop string, seed uint64, tier string, idx int) *Plan {
 // ---------------------------------------------------------------------------------------------
 // C16
 
+// planC16Nested: repositories nested in each other, one of them is emptied and collected (the directory of an emptied
+// repository is removed) while the ones below or above it hold tagged images that have to stay.
+func planC16Nested(prop string, seed uint64, tier string) *Plan {
+	g := newGen(seed, tier)
+	g.p.Profile = "isolation: nested repositories, one of them emptied and collected"
+	pools := [][]string{{"a", "a/b", "a/b/c"}, {"a", "a/b"}, {"proj", "proj/app"}, {"lib/one", "lib/two", "lib"}, {"team/app/web", "team"}}
+	g.p.Repos = pools[g.r.intn(len(pools))]
+	g.storeKnob("dir", "dir", "dir", "mem")
+	k := &g.p.Knobs
+	if k.Store != "mem" {
+		k.Preseed = "sentinel"
+		g.p.Extra["monitor"] = "iso"
+	}
+	k.Delete, k.BlobDelete = 1, g.r.pick(-1, 1)
+	k.GCGraceMs = int64(g.r.pick(-1, -1, 500))
+	k.GCFreqMs = int64(g.r.pick(-1, -1, 200, 5000))
+	k.EmptyRepo = g.r.pick(-1, -1, 1)
+	k.Untagged = g.r.pick(-1, 1)
+	imgs := []int{g.newImage(-1, -1), g.newImage(-1, -1)}
+	loose := g.newBlob(g.r.between(1, 200))
+	victim := g.r.intn(g.nrepos())
+	for r := range g.p.Repos {
+		if r != victim || g.r.chance(30) {
+			g.pushManifest(r, imgs[g.r.intn(2)], g.r.str("v1", "keep"), false)
+		}
+	}
+	// the victim gets content that goes away again
+	for i := g.r.between(1, 3); i > 0; i-- {
+		switch g.r.intn(3) {
+		case 0:
+			g.add(g.blobOp(victim, loose, true))
+			g.markBlob(victim, loose)
+		case 1:
+			g.pushManifest(victim, imgs[g.r.intn(2)], "", false)
+		default:
+			g.pushManifest(victim, imgs[g.r.intn(2)], "tmp", false)
+		}
+	}
+	for i := g.r.between(2, 6); i > 0; i-- {
+		switch g.r.intn(6) {
+		case 0, 1:
+			if m, ok := g.pushedMan(victim); ok {
+				g.add(Op{K: "del", Mode: "man", Repo: victim, Obj: m})
+				delete(g.mansIn[victim], m)
+			}
+		case 2:
+			g.add(Op{K: "del", Mode: "tag", Repo: victim, Tag: g.r.str("tmp", "v1", "keep")})
+		case 3:
+			g.add(Op{K: "del", Mode: "blob", Repo: victim, Obj: loose})
+		case 4:
+			g.add(Op{K: "sleep", Ms: int64(g.r.pick(300, 1000, 6000))})
+		default:
+			g.add(Op{K: "gc", Repo: g.r.pick(-1, victim)})
+		}
+	}
+	g.add(Op{K: "gc", Repo: -1})
+	g.add(Op{K: "sleep", Ms: 6000})
+	g.add(Op{K: "check"})
+	for r := range g.p.Repos {
+		g.add(g.readOp(r))
+		g.add(g.tagsOp(r))
+	}
+	if k.Store == "dir" && g.r.chance(40) {
+		g.add(Op{K: "restart"})
+		g.add(Op{K: "check"})
+	}
+	return g.finish(prop)
+}
+
 func planC16(prop string, seed uint64, tier string, idx int) *Plan {
+	if idx%6 == 5 {
+		return planC16Nested(prop, seed, tier)
+	}
 	g := newGen(seed, tier)
 	g.p.Profile = "isolation"
 	pools := [][]string{{"a", "a/b", "a/b/c"}, {"a", "a/b"}, {"proj", "proj/app"}, {"x", "xy"}, {"lib/one", "lib/two", "lib"}, {"index", "index/json"}, {"a/uploads", "a"}}
